@@ -11,6 +11,7 @@ import (
 	"path"
 	"path/filepath"
 	"reflect"
+	"strings"
 
 	"github.com/akalin/gopar/rsec16"
 )
@@ -28,7 +29,25 @@ func (io defaultFileIO) ReadFile(path string) ([]byte, error) {
 }
 
 func (io defaultFileIO) FindWithPrefixAndSuffix(prefix, suffix string) ([]string, error) {
-	return filepath.Glob(prefix + "*" + suffix)
+	// Don't use filepath.Glob, since prefix and suffix must be
+	// matched literally, and since it ignores I/O errors.
+	dir, namePrefix := filepath.Split(prefix)
+	listDir := dir
+	if listDir == "" {
+		listDir = "."
+	}
+	infos, err := ioutil.ReadDir(listDir)
+	if err != nil {
+		return nil, err
+	}
+	var matches []string
+	for _, info := range infos {
+		name := info.Name()
+		if len(name) >= len(namePrefix)+len(suffix) && strings.HasPrefix(name, namePrefix) && strings.HasSuffix(name, suffix) {
+			matches = append(matches, filepath.Join(dir, name))
+		}
+	}
+	return matches, nil
 }
 
 func (io defaultFileIO) WriteFile(path string, data []byte) error {
